@@ -277,7 +277,37 @@ impl RoaringBitmap {
 
     pub fn range_cardinality<R: RangeBounds<u32>>(&self, range: R) -> u64 {
         let (lo, hi) = Self::bounds(range);
-        Self::combine(self, &Self::single_range(lo, hi), Op::And).len()
+        // sum of the overlaps (single pass; cheaper for the solver than the generic merge)
+        let mut t: u64 = 0;
+        let mut i = 0;
+        while i < K {
+            if i < self.n {
+                let a = if self.lo[i] > lo { self.lo[i] } else { lo };
+                let b = if self.hi[i] < hi { self.hi[i] } else { hi };
+                if a < b {
+                    t += b - a;
+                }
+            }
+            i += 1;
+        }
+        t
+    }
+
+    pub fn contains_range<R: RangeBounds<u32>>(&self, range: R) -> bool {
+        let (lo, hi) = Self::bounds(range);
+        if lo >= hi {
+            return true;
+        }
+        // intervals are disjoint and non-adjacent: a range is contained iff one interval covers it
+        let mut r = false;
+        let mut i = 0;
+        while i < K {
+            if i < self.n && self.lo[i] <= lo && hi <= self.hi[i] {
+                r = true;
+            }
+            i += 1;
+        }
+        r
     }
 
     /// Number of elements <= x.
